@@ -146,7 +146,7 @@ class Monitor(object):
                     bad += ':code-not-in-FIELD_EVENTS-tuple(%s)' % ('lower-case' if ev.upper() in self.u.FIELD_EVENTS else 'weight-specific-or-seated')
             else:
                 # a record is listed for the generic codes only (any letter case); a weight-specific code has none
-                rec = self.u.field_event_record(ev, gender if isinstance(gender, str) else 'all')
+                rec = listed_record(ev, gender)
                 if rec and float(r) > rec * 1.2 + 1e-9:
                     bad = 'field:beyond-120%-of-record'
                     if not (ev in self.u.FIELD_EVENTS):
@@ -190,6 +190,20 @@ class Monitor(object):
         ctx.count('judged.accepted-and-consistent')
         if ctx.nt(('a', ev, text, gender, prec)):
             ctx.sample('accepted-%s' % k, dict(case, result=r), 4)
+
+
+# the records the library lists (pinned copy, so that the oracle does not ask the code under test): generic codes only, any
+# letter case; a gender label other than m / f means "whichever is greater"
+RECORDS = {'m': {'HJ': 2.45, 'LJ': 8.95, 'TJ': 18.29, 'PV': 6.16, 'HT': 86.74, 'DT': 74.08, 'WT': 24.57, 'SP': 23.12, 'JT': 104.80},
+           'f': {'HJ': 2.09, 'LJ': 7.52, 'TJ': 15.50, 'PV': 5.06, 'HT': 82.98, 'DT': 76.80, 'WT': 22.50, 'SP': 22.63, 'JT': 72.28}}
+
+
+def listed_record(ev, gender):
+    g = gender.lower() if isinstance(gender, str) else 'all'
+    e = ev.upper()
+    if e not in RECORDS['m']:
+        return None
+    return RECORDS[g][e] if g in RECORDS else max(RECORDS['m'][e], RECORDS['f'][e])
 
 
 CUSTOMARY = ['60', '100', '200', '300', '400', '600', '800', '1000', '1500', 'MILE', '3000', '5000', '10000', '60H', '100H', '110H', '400H',
@@ -247,7 +261,7 @@ def run_shard(ctx, spec):
     T = texts(rnd, 280 if ctx.tier == 'quick' else 1900)
     ctx.info['events'] = len(events)
     ctx.info['texts'] = len(T)
-    opts = [(g, p) for g in ('all', 'm', 'f', 'M') for p in (None, 0, 1, 2, 3)]
+    opts = [(g, p) for g in ('all', 'm', 'f', 'M', 'W', 'X', '', 'Mixed', 'F') for p in (None, 0, 1, 2, 3)]
     f = mon.f
     mine = events[spec['i']::spec['n']]
     if spec['i'] == 0:
